@@ -256,6 +256,10 @@ fn monitor_inner(prop: &Property, args: &Args, scratch: &Path) -> i32 {
     let mut suspects = suspects;
     suspects.sort();
     for sp in suspects {
+        if found > 0 {
+            // one confirmed case is enough; the others in flight are very likely the same mechanism
+            break;
+        }
         let (_, part_idx, exh, data) = match read_slot(&sp) {
             Some(x) => x,
             None => continue,
